@@ -332,22 +332,23 @@ Definition step_arc (rel : bool) (w : list Q) (s : pst) : pst :=
 
 Definition byte_is (o : N) (a b : N) : bool := (o =? a)%N || (o =? b)%N.
 
+Definition with_sets_f (fuel : nat) (sz : Z) (rel : bool) (s : pst) (pts : list Q)
+  (k : list Q -> res (option pst)) : res (option pst) :=
+  let* h := has_sets_or_more fuel sz rel s pts in
+  match h with None => Ok None | Some p => k p end.
+
 (* elements_path.go:237-402 addSeg after getPoints: op byte `o`, c.points = pts.
    Ok None = errParamMismatch *)
 Definition exec (s : pst) (o : N) (pts : list Q) : res (option pst) :=
   let L := Z.of_nat (length pts) in
   let fuel := S (length pts) in
   let fin (s : pst) : res (option pst) := Ok (Some (set_lk s o)) in
-  let with_sets (sz : Z) (rel : bool) (s : pst) (pts : list Q)
-        (k : list Q -> res (option pst)) : res (option pst) :=
-    let* h := has_sets_or_more fuel sz rel s pts in
-    match h with None => Ok None | Some p => k p end in
-  if byte_is o 122 90 then                                   (* z Z : 248-258 *)
+    if byte_is o 122 90 then                                   (* z Z : 248-258 *)
     if negb (L =? 0)%Z then Ok None
     else if inp s then fin (set_cur (push s (OClose (stx s) (sty s))) (stx s) (sty s))
          else fin s
   else if byte_is o 109 77 then                              (* m M : 259-273 *)
-    with_sets 2 (o =? 109)%N s pts (fun p =>
+    with_sets_f fuel 2 (o =? 109)%N s pts (fun p =>
       let* x0 := index 265 p 0 in
       let* y0 := index 265 p 1 in
       let s1 := push (set_start s x0 y0) (OMove x0 y0) in
@@ -356,25 +357,25 @@ Definition exec (s : pst) (o : N) (pts : list Q) : res (option pst) :=
       let* ly := index 272 p (L - 1) in
       fin (set_cur s2 lx ly))
   else if byte_is o 108 76 then                              (* l L : 274-285 *)
-    with_sets 2 (o =? 108)%N s pts (fun p =>
+    with_sets_f fuel 2 (o =? 108)%N s pts (fun p =>
       let* s2 := for_groups fuel 281 p 0 2 step_line s in
       let* lx := index 283 p (L - 2) in
       let* ly := index 284 p (L - 1) in
       fin (set_cur s2 lx ly))
   else if byte_is o 118 86 then                              (* v V : 286-296 *)
     let* pts1 := if (o =? 118)%N then vals_to_abs fuel pts (cury s) else Ok pts in
-    with_sets 1 false s pts1 (fun p =>
+    with_sets_f fuel 1 false s pts1 (fun p =>
       let* s2 := for_groups fuel 293 p 0 1 step_v s in
       let* ly := index 295 p (L - 1) in
       fin (set_cury s2 ly))
   else if byte_is o 104 72 then                              (* h H : 297-307 *)
     let* pts1 := if (o =? 104)%N then vals_to_abs fuel pts (curx s) else Ok pts in
-    with_sets 1 false s pts1 (fun p =>
+    with_sets_f fuel 1 false s pts1 (fun p =>
       let* s2 := for_groups fuel 304 p 0 1 step_h s in
       let* lx := index 306 p (L - 1) in
       fin (set_curx s2 lx))
   else if byte_is o 113 81 then                              (* q Q : 308-323 *)
-    with_sets 4 (o =? 113)%N s pts (fun p =>
+    with_sets_f fuel 4 (o =? 113)%N s pts (fun p =>
       let* s2 := for_groups fuel 316 p 0 4 step_quad s in
       let* c1 := index 320 p (L - 4) in
       let* c2 := index 320 p (L - 3) in
@@ -382,11 +383,11 @@ Definition exec (s : pst) (o : N) (pts : list Q) : res (option pst) :=
       let* ly := index 322 p (L - 1) in
       fin (set_cur (set_ctl s2 c1 c2) lx ly))
   else if byte_is o 116 84 then                              (* t T : 324-338 *)
-    with_sets 2 (o =? 116)%N s pts (fun p =>
+    with_sets_f fuel 2 (o =? 116)%N s pts (fun p =>
       let* s2 := for_groups fuel 331 p 0 2 (step_smooth_quad o) s in
       fin s2)
   else if byte_is o 99 67 then                               (* c C : 339-355 *)
-    with_sets 6 (o =? 99)%N s pts (fun p =>
+    with_sets_f fuel 6 (o =? 99)%N s pts (fun p =>
       let* s2 := for_groups fuel 347 p 0 6 step_cubic s in
       let* c1 := index 352 p (L - 4) in
       let* c2 := index 352 p (L - 3) in
@@ -394,11 +395,11 @@ Definition exec (s : pst) (o : N) (pts : list Q) : res (option pst) :=
       let* ly := index 354 p (L - 1) in
       fin (set_cur (set_ctl s2 c1 c2) lx ly))
   else if byte_is o 115 83 then                              (* s S : 356-374 *)
-    with_sets 4 (o =? 115)%N s pts (fun p =>
+    with_sets_f fuel 4 (o =? 115)%N s pts (fun p =>
       let* s2 := for_groups fuel 363 p 0 4 (step_smooth_cubic o) s in
       fin s2)
   else if byte_is o 97 65 then                               (* a A : 375-386 *)
-    with_sets 7 false s pts (fun p =>
+    with_sets_f fuel 7 false s pts (fun p =>
       let* s2 := for_groups fuel 379 p 0 7 (step_arc (o =? 97)%N) s in
       fin s2)
   else fin s.                                                (* default: ignored, 387-388 *)
